@@ -266,8 +266,28 @@ func genProg(w *bufio.Writer, r *rand.Rand, n int, o progOpts, big bool) {
 			instrItems = append(instrItems, genInstr(r, o, g, labs))
 		}
 		if o.asserts && r.Intn(2) == 0 {
-			ga := &egen{r: r, names: []int64{1, 2, 3, 4}, maxLit: 9, signRuns: o.signRuns, divs: o.divs}
-			instrItems = append(instrItems, ga.gen(2).enc([]int64{3}))
+			// one to three ;assert lines anywhere among the instructions; most are true, so that a
+			// failing one is often the second or third
+			na := 1 + r.Intn(3)
+			for j := 0; j < na; j++ {
+				ga := &egen{r: r, names: []int64{1, 2, 3, 4}, maxLit: 9, signRuns: o.signRuns, divs: o.divs}
+				var e *gexpr
+				switch r.Intn(4) {
+				case 0:
+					e = ga.gen(2)
+				case 1:
+					// zero by construction: x - x over the constants
+					x := ga.gen(1)
+					if x.level() < 6 {
+						x = par(x)
+					}
+					e = &gexpr{kind: 4, op: 1, a: x, b: x}
+				default:
+					e = &gexpr{kind: 4, op: 0, a: &gexpr{kind: 1, n: int64(1 + r.Intn(4))}, b: &gexpr{kind: 0, n: int64(1 + r.Intn(9))}}
+				}
+				pos := r.Intn(len(instrItems) + 1)
+				instrItems = append(instrItems[:pos], append([][]int64{e.enc([]int64{3})}, instrItems[pos:]...)...)
+			}
 		}
 		// EQU lines go anywhere among the instructions (uses may come before definitions)
 		items = instrItems
@@ -276,7 +296,7 @@ func genProg(w *bufio.Writer, r *rand.Rand, n int, o progOpts, big bool) {
 			items = append(items[:pos], append([][]int64{e}, items[pos:]...)...)
 		}
 		if o.fors {
-			items = addFors(r, items, o)
+			items = addFors(r, items, o, cfg)
 		}
 		c := append([]int64{30}, cfg.enc()...)
 		c = append(c, r.Int63n(1<<20), int64(len(items)))
@@ -317,7 +337,7 @@ func genProg(w *bufio.Writer, r *rand.Rand, n int, o progOpts, big bool) {
 
 // addFors wraps runs of instructions into FOR blocks (C08): counters 80.., counts 0..6,
 // nesting up to 3, at most 40 expansions in total; block labels 90.. on top-level blocks.
-func addFors(r *rand.Rand, items [][]int64, o progOpts) [][]int64 {
+func addFors(r *rand.Rand, items [][]int64, o progOpts, cfg gcfg) [][]int64 {
 	budget := 40
 	next := int64(80)
 	var countEqus [][]int64
@@ -329,9 +349,12 @@ func addFors(r *rand.Rand, items [][]int64, o progOpts) [][]int64 {
 		return id
 	}
 	var blockLabels []int64
-	var build func(depth int, mult int, outer []int64) []int64
-	build = func(depth int, mult int, outer []int64) []int64 {
+	var build func(depth int, mult int, outer []int64, once bool) []int64
+	build = func(depth int, mult int, outer []int64, once bool) []int64 {
 		cnt := r.Intn(7)
+		if once && r.Intn(3) == 0 {
+			cnt = 1
+		}
 		if (cnt+1)*mult > budget {
 			cnt = 1
 		}
@@ -353,7 +376,17 @@ func addFors(r *rand.Rand, items [][]int64, o progOpts) [][]int64 {
 		out = append(out, counter)
 		// the count: a literal, or an expression over an EQU name whose value is compound
 		// (textual substitution: with e equ x+y, e*2 is x+y*2 and k-e is k-x+y)
-		switch r.Intn(5) {
+		switch r.Intn(6) {
+		case 5:
+			// a predefined name in the count: MAXLENGTH-(len-cnt), MINDISTANCE-(dist-cnt), CORESIZE-(M-cnt)
+			pre, val := int64(2), cfg.ln
+			switch r.Intn(3) {
+			case 0:
+				pre, val = 4, cfg.ds
+			case 1:
+				pre, val = 1, cfg.m
+			}
+			out = (&gexpr{kind: 4, op: 1, a: &gexpr{kind: 1, n: pre}, b: &gexpr{kind: 0, n: val - int64(cnt)}}).enc(out)
 		case 0:
 			x := r.Intn(cnt + 1)
 			id := newEqu(&gexpr{kind: 4, op: 0, a: &gexpr{kind: 0, n: int64(x)}, b: &gexpr{kind: 0, n: int64(cnt - x)}})
@@ -395,15 +428,42 @@ func addFors(r *rand.Rand, items [][]int64, o progOpts) [][]int64 {
 			if m2 < 1 {
 				m2 = 1
 			}
-			body = append(body, build(depth+1, m2, visible))
+			body = append(body, build(depth+1, m2, visible, once && cnt == 1))
+		}
+		// when the body is emitted exactly once it may define names of its own: a label on one of its
+		// instructions (with or without a colon) and an EQU line, possibly as the first line of the body
+		var bodyLabel, bodyEqu int64 = -1, -1
+		if once && cnt == 1 {
+			if r.Intn(2) == 0 {
+				bodyLabel = 100 + counter - 80
+				visible = append(visible, bodyLabel)
+			}
+			if r.Intn(3) == 0 {
+				bodyEqu = 110 + counter - 80
+			}
+		}
+		equFirst := bodyEqu >= 0 && r.Intn(2) == 0
+		if equFirst {
+			body = append(body, (&gexpr{kind: 0, n: int64(r.Intn(9))}).enc([]int64{1, bodyEqu}))
 		}
 		if nestFirst && r.Intn(2) == 0 {
 			nest() // the first thing the block emits comes out of the nested block
 			nestFirst = false
 		}
+		labelAt := r.Intn(nb)
 		for i := 0; i < nb; i++ {
 			g := &egen{r: r, names: append([]int64{counter}, visible...), maxLit: 30}
-			body = append(body, genInstr(r, progOpts{mode: o.mode, exprDepth: 2, maxInstr: 1}, g, nil))
+			if bodyEqu >= 0 {
+				g.names = append(g.names, bodyEqu)
+			}
+			var labs []int64
+			if bodyLabel >= 0 && i == labelAt {
+				labs = []int64{bodyLabel}
+			}
+			body = append(body, genInstr(r, progOpts{mode: o.mode, exprDepth: 2, maxInstr: 1}, g, labs))
+			if bodyEqu >= 0 && !equFirst && i == 0 {
+				body = append(body, (&gexpr{kind: 0, n: int64(r.Intn(9))}).enc([]int64{1, bodyEqu}))
+			}
 		}
 		if nestFirst {
 			nest()
@@ -419,7 +479,7 @@ func addFors(r *rand.Rand, items [][]int64, o progOpts) [][]int64 {
 	for b := 0; b < nblocks && budget > 2; b++ {
 		pos := r.Intn(len(items) + 1)
 		before := len(countEqus)
-		blk := build(0, 1, nil)
+		blk := build(0, 1, nil, true)
 		ins := [][]int64{}
 		// the EQUs a count uses are defined somewhere before the block that uses them: at the very
 		// top, or right in front of the block (after earlier blocks)
